@@ -62,5 +62,5 @@ Definition W6 s := forall f w, rw s = Some (OF f, w) ->
 Definition W7 s := forall h w, rw s = Some (OH h, w) ->
   exists r, aget h (hs s) = Some r /\ hreg r = true.
 Definition W8 s := forall h r, aget h (hs s) = Some r ->
-  (hpend r <> None -> hreg r = true) /\ (hreg r = true -> htx r = false).
+  (hpend r <> None -> hreg r = true) /\ (hreg r = true -> htx r = false /\ hasync r = true).
 
